@@ -657,13 +657,7 @@ Proof.
   simpl map. unfold norm.
   set (r := mkey_cmp (me_int e0 :: map me_int p1, map key_of t1) (me_int f0 :: map me_int p2, map key_of t2)).
   destruct (Z.eqb_spec r 0) as [E|E]; auto.
-  rewrite E. f_equal.
-  assert (L : length (e0 :: p1 ++ t1) = length (f0 :: p2 ++ t2)).
-  { unfold r, mkey_cmp in E. apply lex_eq0 in E. simpl fst in E. simpl snd in E. destruct E as [E1 E2].
-    apply list_lex_zero_len in E1; [|lia]. simpl in E1. rewrite !map_length in E1.
-    apply tails_zero_len in E2; [|apply (wp_tail _ _ _ _ W1)|apply (wp_tail _ _ _ _ W2)].
-    simpl length. rewrite !app_length. lia. }
-  rewrite L, Nat.ltb_irrefl. reflexivity.
+  rewrite E. reflexivity.
 Qed.
 
 (* ------------------------------------------------------------------ laws *)
